@@ -41,8 +41,14 @@ def cfg_args(c):
         a += ["--ranks", c["ranks"], "--net", c.get("net", 0)]
     if c.get("skew"):
         a += ["--skew", c["skew"]]
+        if c.get("skewp"):
+            a += ["--skew-point", c["skewp"]]
+        if c.get("skewt") is not None:
+            a += ["--skew-tag", c["skewt"]]
     if c.get("park"):
         a += ["--park", c["park"]]
+    if c.get("delay"):
+        a += ["--delay", c["delay"]]
     return a
 
 
@@ -383,6 +389,27 @@ class Campaign:
                 self.machinery.append({"property": "?", "what": "micro-model trace %s: %s" % (v["verdict"], (v.get("error") or json.dumps(v.get("res")))[:300]),
                                        "model": (mname, 0)})
 
+    @_timed
+    def sweep_phase(self, family, mseed, cfgs, size="small"):
+        """the same model under a list of configurations that differ in one injected delay; traces validated in concatenated chunks"""
+        md = self.prepare_model(family, mseed, size)
+        self.stats["models"] += 1
+        if not md["ok"]:
+            self.machinery.append({"property": "C10", "what": md["why"], "model": (family, mseed)})
+            return
+
+        def one(ic):
+            i, c = ic
+            tr = os.path.join(md["dir"], "sw_%d.ndjson" % i)
+            rc, out = run_twh(self.bdir, ["--model", md["txt"], "--out", tr] + cfg_args(c), binary="twd" if c.get("ranks") else "twh")
+            return (str(i), tr, c, rc)
+
+        res = [x for x in vlib.pmap(one, list(enumerate(cfgs))) if x[3] in (0, 4) and os.path.exists(x[1])]
+        self.stats["sweep_runs"] = self.stats.get("sweep_runs", 0) + len(res)
+        for x in res:
+            self.stats["distinct_cfg"].add((family, mseed, json.dumps(x[2], sort_keys=True)))
+        self._validate_concat(md, res, "%s_%d" % (family, mseed))
+
     # -------------------------------------------------------------- behaviours of the specification replayed in the real code
     KIND = {"Push": "VP_Q_PUSH", "Drain": "VP_Q_DRAIN", "Flag": "VP_FLAG", "AntiLocal": "VP_ANTI_LOCAL", "Undo": "VP_UNDO"}
 
@@ -569,7 +596,7 @@ class Campaign:
                "known_finding_hits": len(self.known), "other_property_failures": len(self.other),
                "driver_lines_validated": self.stats.get("driver_lines", 0), "conformance_divergences": self.stats.get("divergences", 0),
                "model_checking_runs": self.stats.get("mc", []), "model_checking_reachability_probes": self.stats.get("mc_probes", []),
-               "tlc_behaviours_replayed_in_real_code": self.stats.get("replay", []), "phase_wall_s": self.stats.get("phase_wall_s", []),
+               "tlc_behaviours_replayed_in_real_code": self.stats.get("replay", []), "phase_wall_s": self.stats.get("phase_wall_s", []), "single_delay_sweep_runs": self.stats.get("sweep_runs", 0),
                "conformance_divergence_kinds": self.stats.get("divergence_kinds", {}),
                "micro_model_runs_on_real_code": self.stats.get("micro_runs", 0), "micro_model_distinct_interleavings": self.stats.get("micro_distinct", 0),
                "exhaustive": False}
